@@ -1,8 +1,8 @@
 #!/bin/bash
 # usage: tools/seed_batch.sh C05 C09 ...  : verify and try both seeds (A,B) of each property
 for p in "$@"; do for s in A B; do
-  d=/tmp/seed-$p/$s; [ -f $d/patch.diff ] || continue
-  /verif/tools/verify_seed.sh $d > /var/tmp/seedlogs/$p-$s.verify 2>&1
-  /verif/tools/try_seed.sh $d/patch.diff $p > /var/tmp/seedlogs/$p-$s.try 2>&1
-  echo "$p-$s verify: $(grep -c '^ok' /var/tmp/seedlogs/$p-$s.verify) ok lines, demo-with-patch: $(tail -3 /var/tmp/seedlogs/$p-$s.verify | grep -c FAIL) FAIL | check: $(grep -c VIOLATION /var/tmp/seedlogs/$p-$s.try) violations, $(grep 'exit=' /var/tmp/seedlogs/$p-$s.try)"
+  d=/tmp/${SEEDPFX:-seed}-$p/$s; [ -f $d/patch.diff ] || continue
+  /verif/tools/verify_seed.sh $d > /var/tmp/seedlogs/${SEEDPFX:-seed}-$p-$s.verify 2>&1
+  /verif/tools/try_seed.sh $d/patch.diff $p > /var/tmp/seedlogs/${SEEDPFX:-seed}-$p-$s.try 2>&1
+  echo "$p-$s verify: $(grep -c '^ok' /var/tmp/seedlogs/${SEEDPFX:-seed}-$p-$s.verify) ok lines, demo-with-patch: $(tail -3 /var/tmp/seedlogs/${SEEDPFX:-seed}-$p-$s.verify | grep -c FAIL) FAIL | check: $(grep -c VIOLATION /var/tmp/seedlogs/${SEEDPFX:-seed}-$p-$s.try) violations, $(grep 'exit=' /var/tmp/seedlogs/${SEEDPFX:-seed}-$p-$s.try)"
 done; done
